@@ -231,7 +231,8 @@ def run_action(action, args):
                 ev.queue_evolve_all_apps()
             if args.get('purge'):
                 ev.queue_purge_old_apps()
-            res['facts'].update(evolver_facts(ev))
+            if not args.get('no_facts_before'):
+                res['facts'].update(evolver_facts(ev))
             if res['facts'].get('evolution_required') or args.get('force'):
                 FAULT['armed'] = True
                 emit('mark', what='evolve_start')
